@@ -164,7 +164,8 @@ def dimensions(F, S):
         if good:
             f, nd = non_ctor[0]
             rt = f.term(f.kids(nd["id"])[1])
-            good = (rt[0] == "call" and rt[1].endswith("MapHeader::" + src)) or (rt[0] == "mem" and rt[2] == src)
+            hv = [("var", d["n"], d["d"]) for x in f.nodes if x["k"] == "DeclStmt" for d in x.get("decls", []) if d.get("rec") == "OP2Utility::MapHeader"]
+            good = (rt[0] == "mem" and rt[2] == src) or (bool(hv) and rt == F.method_value("OP2Utility::MapHeader::" + src, hv[0]))
         if good:
             out.append(ok("R-WRITESET", inst, rmb.loc(non_ctor[0][1]["id"]), rmb.qn, req, "one store, from mapHeader"))
         else:
